@@ -50,7 +50,7 @@ func C16(r *drv.Run) {
 	if !quick(r) {
 		nrand = 400000
 	}
-	r.Rule = "exhaustive: every byte 0x01..0x7f in every spelling it has (raw, backslash+char, named escape, \\xHH, \\xhh) in both quote styles, alone and embedded between two other bytes; malformed \\x followed by 0, 1 or 2 hex digits and EVERY printable two-character continuation that is not a hex pair (~8 700 per quote style; must keep all following characters); seeded random ASCII strings (length 1..8) with a random spelling per byte. The harness composes the denoted bytes b and the spelling, so it knows both. Oracle: `find all <literal>` on b reports exactly [0,len b); on every one-byte substitution of b (neighbour values, case flip, 3 random bytes per position) it reports nothing of that span. Non-trivial = every distinct literal spelling verified on b and on its near misses."
+	r.Rule = "exhaustive: every byte 0x01..0x7f in every spelling it has (raw, backslash+char, named escape, \\xHH, \\xhh) in both quote styles, alone, embedded between two other bytes, and as every ordered pair of 22 special bytes (CR, LF, tab, blank, both quotes, backslash, x, hex digits, controls, punctuation) in every combination of spellings; malformed \\x followed by 0, 1 or 2 hex digits and EVERY printable two-character continuation that is not a hex pair (~8 700 per quote style; must keep all following characters); seeded random ASCII strings (length 1..8) with a random spelling per byte. The harness composes the denoted bytes b and the spelling, so it knows both. Oracle: `find all <literal>` on b reports exactly [0,len b); on every one-byte substitution of b (neighbour values, case flip, 3 random bytes per position) it reports nothing of that span. Non-trivial = every distinct literal spelling verified on b and on its near misses."
 	r.Assumptions = []string{"ASCII bytes 0x01..0x7f only, as the property says (the lexer writes \\x80..\\xff as two-byte runes)"}
 	var cases []c16Case
 	for _, q := range []byte{'\'', '"'} {
@@ -59,6 +59,18 @@ func C16(r *drv.Run) {
 				cases = append(cases, c16Case{string(q) + sp + string(q), string([]byte{c}), "single:" + name})
 				// embedded; a raw hex digit must not directly follow a \x escape of fewer digits (none here: always 2)
 				cases = append(cases, c16Case{string(q) + "k" + sp + "z" + string(q), "k" + string([]byte{c}) + "z", "embedded:" + name})
+			}
+		}
+		// every ordered pair of "interesting" bytes in every combination of spellings: what one byte's
+		// spelling does must not depend on its neighbour (CR LF, quote after backslash, x after backslash ...)
+		special := []byte{'\r', '\n', '\t', ' ', '\'', '"', '\\', 'x', '4', 'a', 'f', 'A', 'n', 0x01, 0x0b, 0x7f, '-', '+', '/', '@', '(', ')'}
+		for _, c1 := range special {
+			for _, c2 := range special {
+				for n1, s1 := range spellings(c1, q) {
+					for n2, s2 := range spellings(c2, q) {
+						cases = append(cases, c16Case{string(q) + s1 + s2 + string(q), string([]byte{c1, c2}), "pair:" + n1 + "+" + n2})
+					}
+				}
 			}
 		}
 		// malformed \x
@@ -128,7 +140,7 @@ func C16(r *drv.Run) {
 		src := "find all " + cs.lit
 		// the lexer reads through a 4096-byte buffer: in a third of the cases the literal is pushed to
 		// straddle a multiple of 4096 by a leading comment
-		if i%3 == 1 {
+		if (uint64(i)+r.Seed)%3 == 1 {
 			target := 4096*(1+rng.Intn(2)) - rng.Intn(len(cs.lit)+2)
 			pad := target - len("--()--\nfind all ")
 			if pad > 0 {
@@ -188,7 +200,7 @@ func C16(r *drv.Run) {
 		}}
 	})
 	if r.NViolations() == 0 {
-		for _, k := range []string{"ok_single:raw", "ok_single:named", "ok_single:hex-upper", "ok_single:hex-lower", "ok_single:backslash-char", "ok_malformed-hex", "ok_random-mixed"} {
+		for _, k := range []string{"ok_single:raw", "ok_single:named", "ok_single:hex-upper", "ok_single:hex-lower", "ok_single:backslash-char", "ok_malformed-hex", "ok_random-mixed", "ok_pair:raw+raw", "ok_pair:named+raw"} {
 			if r.Counter(k) == 0 {
 				r.Inconclusive("coverage floor: " + k + " = 0")
 			}
